@@ -1,4 +1,5 @@
 import Dcg.Proofs.Imports
+import Dcg.Proofs.ImportLedger
 import Dcg.Proofs.Cover
 import Dcg.Proofs.Types
 import Dcg.Proofs.ClassTie
@@ -9,7 +10,7 @@ Only property theorems live here; helper lemmas are in Dcg/Proofs/Imports.lean (
 Dcg/Proofs/Cover.lean for `imports_cover_hint`).
 -/
 namespace Dcg.Props.C02
-open Dcg.Model.Types Dcg.Model.Imports Dcg.Model.HintExpr Dcg.Proofs.Imports Dcg.Proofs.Cover
+open Dcg.Model.Types Dcg.Model.Imports Dcg.Model.HintExpr Dcg.Proofs.Imports Dcg.Proofs.Cover Dcg.Proofs.ImportLedger
 
 /-! ### The reference-counted import set (`imports.py`) -/
 
@@ -48,6 +49,67 @@ theorem alias_stale_after_plain_remove :
     ∃ ops s k, run {} ops = some s ∧ (aliasOf s k).isSome = true ∧ present s k = false :=
   ⟨[.append [{ from_ := some ['m'], name := ['X'], alias := some ['Y'] }],
     .remove [{ from_ := some ['m'], name := ['X'] }]], _, (some ['m'], ['X']), rfl, by decide, by decide⟩
+
+/-! ### The discipline `Parser.parse` relies on: batches are taken back only after they were filed
+
+`Parser.parse` appends `model.imports` as one batch per model (several times: `__change_from_import`,
+the final collection loop) and, for the root models that `--collapse-root-models` made superfluous,
+removes `unused_model.imports` as one batch.  `okRun` above only asks that no counter goes below zero;
+that is not enough (see `count_discipline_insufficient`).  `ledgerRun` (Model/Imports.lean) keeps the
+ledger of the batches filed and not taken back; a history is disciplined when every batch removal finds
+its batch there.  The harness records the real history of every `generate()` run of the ledger
+campaign and has the driver check exactly this. -/
+
+/-- FULL STRENGTH over disciplined histories (any length, any imports, aliases, reference paths): the
+counter of every key is exactly what the batches still filed credit it with, minus the single
+removals (pruning, `remove_referenced_imports`). Invariant by induction over the history. -/
+theorem ledger_counts (os : List LOp) (s : State) (L : Ledger) (hl : ledgerRun {} {} os = some L)
+    (h : run {} (os.map LOp.op) = some s) (k : Key) :
+    count s k = (credit L.filed k : Int) - (L.debits.count k : Nat) :=
+  Booked_run os {} s {} L Booked_empty hl h k
+
+/-- … hence what `parse()` needs of the import block: an import that belongs to a batch which was
+filed and never taken back (the imports of a model that survives), and that was not removed singly
+(pruning removes only names that do not occur in the module text: `prune_sound`), is in the set —
+whatever else was appended and taken back in between. -/
+theorem ledger_filed_present (os : List LOp) (s : State) (L : Ledger) (hl : ledgerRun {} {} os = some L)
+    (h : run {} (os.map LOp.op) = some s) (b : List Key) (hb : b ∈ L.filed) (k : Key) (hk : k ∈ b)
+    (hd : k ∉ L.debits) : present s k = true := by
+  apply counter_pos_present (os.map LOp.op) s h k
+  rw [ledger_counts os s L hl h k, List.count_eq_zero_of_not_mem hd]
+  have h1 := credit_ge_of_mem b k L.filed hb
+  have h2 : 0 < b.count k := List.count_pos_iff.mpr hk
+  omega
+
+namespace Witness
+def impC : Imp := { from_ := some ['p'], name := ['c'] }
+def impR : Imp := { from_ := some ['p'], name := ['R'] }
+/-- the shape of a two-level chain of root models under `--collapse-root-models`: the inner root model
+files `[c, R]`, the outer one `[R]`, the surviving model `[c]` (it got the inner type); both root
+models are then removed — the outer one with the imports it has NOW, `[c, R]`, which it never filed -/
+def uncredited : List LOp := [.app [impC, impR], .app [impR], .app [impC], .rem [impC, impR], .rem [impC, impR]]
+/-- … and what the generator really does: the outer model's present imports are filed (again) before
+they are taken back -/
+def credited : List LOp := [.app [impC, impR], .app [impR], .app [impC], .app [impC, impR], .rem [impC, impR], .rem [impC, impR]]
+end Witness
+
+/-- non-vacuity of `ledger_filed_present`: the disciplined history leaves `[c]` filed and `c` bound -/
+example : (ledgerRun {} {} Witness.credited).isSome = true ∧ (run {} (Witness.credited.map LOp.op)).isSome = true ∧
+    (∀ L, ledgerRun {} {} Witness.credited = some L → [keyOf Witness.impC] ∈ L.filed ∧ L.debits = []) := by
+  refine ⟨by decide, by decide, ?_⟩
+  intro L hL
+  have : ledgerRun {} {} Witness.credited = some { filed := [[keyOf Witness.impC], [keyOf Witness.impR]], debits := [] } := by decide
+  rw [this] at hL; cases hL; exact ⟨by simp, rfl⟩
+
+/-- REFUTATION of "non-negative counters are discipline enough": in `Witness.uncredited` every removal
+finds a positive counter (`okRun` holds, nothing raises), yet the second removal takes back a batch
+that was never filed (`ledgerRun = none`) and the import `c` of the batch `[c]` that nobody took back
+is gone. The ledger is what separates the two histories. -/
+theorem count_discipline_insufficient :
+    okRun {} (Witness.uncredited.map LOp.op) = true ∧
+    (∃ s, run {} (Witness.uncredited.map LOp.op) = some s ∧ present s (keyOf Witness.impC) = false) ∧
+    ledgerRun {} {} Witness.uncredited = none ∧ ledgerBreak {} {} Witness.uncredited 0 = some 4 :=
+  ⟨by decide, ⟨_, rfl, by decide⟩, by decide, by decide⟩
 
 /-! ### Pruning (`parser/base.py`: imports whose name does not occur in the code are removed) -/
 
